@@ -20,6 +20,14 @@ from mc import x_catalog as cat
 from mc import x_exprs as X
 
 
+def canon(o):
+    """Canonical form of an object spec (dict keys sorted, as the engine stores specs in replay files): enumeration order of the
+    mutation engine and of cat.params / cat.wires_of depends on dict order, so checks canonicalise before use."""
+    import json
+
+    return json.loads(json.dumps(o, sort_keys=True))
+
+
 # ---------------------------------------------------------------------------------------------------- building
 def build(o):
     import pennylane as qp
